@@ -7,7 +7,7 @@ def run(tier):
     rp = replay.Replay("harness.modes:c12")
     rp.run_lens("gauss_pointwise")
     if tier == "thorough":
-        rp.run_lens("gauss_pointwise", cfg="gauss_pointwise_deep", limit=60000)
+        rp.run_lens("gauss_pointwise", cfg="gauss_pointwise_deep", limit=40000, timeout=2400)
     out.add_replay(rp, "termmachine")
     out.coverage = check.replay_coverage(
         rp, "Gaussian leaves (full rank, rank deficient, over-complete/compressed, batched, interleaved input orders) "
